@@ -565,3 +565,55 @@ fn g_cycle_1_reentry_with_poisoned_memo() {
     std::mem::forget(db);
     std::mem::forget(ing);
 }
+
+// ---- `insert_memo`: a replaced memo is parked, never freed, until the next revision ----------------
+/// address the stubbed `insert_memo_into_table_for` reports as the memo that was stored before
+pub(crate) static mut REPLACED: usize = 0;
+pub(crate) static mut PARKED: usize = 0;
+pub(crate) static mut PARK_CALLS: u32 = 0;
+pub(crate) fn stub_insert_into_table<C: Configuration>(_this: &IngredientImpl<C>, _zalsa: &Zalsa, _id: Id, _memo: std::ptr::NonNull<Memo<C>>, _mi: MemoIngredientIndex) -> Option<std::ptr::NonNull<Memo<C>>> {
+    // SAFETY: single-threaded harness
+    std::ptr::NonNull::new(unsafe { REPLACED } as *mut Memo<C>)
+}
+pub(crate) unsafe fn stub_park<C: Configuration>(_this: &delete::DeletedEntries<C>, memo: std::ptr::NonNull<Memo<C>>) {
+    // SAFETY: single-threaded harness
+    unsafe {
+        PARK_CALLS += 1;
+        PARKED = memo.as_ptr() as usize;
+    }
+}
+
+//@ob id=G-INS-1 kind=C props=C23 timeout=900 fn=IngredientImpl::insert_memo flags=stubs,noreplay
+//@ pre: a memo is inserted for a key that already holds a memo (with a value, or without one: evicted / poisoned placeholder) or holds none; the table swap and the deferred-free list are stubbed to record their arguments
+//@ post: a replaced memo - **with or without a value** - is handed to the deferred-free list exactly once and is not freed now (`execute`, `backdate_if_appropriate` and `diff_outputs` still hold a reference to the old memo's header while the new one is inserted); nothing is parked when nothing was replaced; the returned reference is the new memo (CBMC's memory checks are on: a free of the old memo here would fail the later read)
+#[cfg(kani)]
+#[kani::proof]
+#[kani::unwind(4)]
+#[kani::stub(crate::sync::max_parallelism, crate::verif_support::one_core)]
+#[kani::stub(crate::function::IngredientImpl::insert_memo_into_table_for, stub_insert_into_table)]
+#[kani::stub(crate::function::delete::DeletedEntries::push, stub_park)]
+fn g_ins_1_replaced_memo_is_parked() {
+    let w = world();
+    let cur = w.cur;
+    let replaced: bool = vk::any();
+    let old_has_value: bool = vk::any();
+    let old = memo(if old_has_value { Some(11) } else { None }, cur, Durability::LOW, cur);
+    // SAFETY: single-threaded harness
+    unsafe { REPLACED = if replaced { addr(old) } else { 0 } };
+    let new = Memo::<CGen>::new(Some(12), cur, crate::zalsa_local::verif::revs(Durability::LOW, cur, true, crate::zalsa_local::verif::empty_derived()));
+    let m = w.ing.insert_memo(&w.db.zalsa, w.id, new, MemoIngredientIndex::from_usize(0));
+    assert!(m.value == Some(12));
+    // SAFETY: single-threaded harness
+    let (calls, parked) = unsafe { (PARK_CALLS, PARKED) };
+    if replaced {
+        assert!(calls == 1 && parked == addr(old));
+        // the old memo is still alive (its holder may still read it)
+        assert!(old.header.verified_at.load() == cur);
+        assert!(old.value.is_some() == old_has_value);
+    } else {
+        assert!(calls == 0);
+    }
+    vcover!(replaced && !old_has_value, "a value-less memo is replaced");
+    vcover!();
+    std::mem::forget(w);
+}
